@@ -15,7 +15,7 @@ RULE = (
     "closed curves: all lattice triangles in {0..3}^2 (sliced in the quick tier), lattice quadrilaterals, the P polygons, in int / "
     "Fraction / float and both orientations; curved: circle arcs (4, 8), lens, mixed-degree rounded square, cubic blob. Each built by "
     "from_vertices (polygons), from_ctrlpoints, from_segments and from_full_curve (pynurbs.Curve with the corresponding knot vector, "
-    "lines degree-elevated where the degrees are mixed): pairwise ==, identical vertices (each control point once, in order), "
+    "lines degree-elevated where the degrees are mixed): curved descriptions include coincident control points (doubled / zero-length cubic handle, two arcs sharing a control-point position), a single closed cubic and mixed degrees; pairwise ==, identical vertices (each control point once, in order), "
     "segments, box, signed length, exact area; box encloses 33 exact points per segment; sign of float(curve) = exact orientation. "
     "Malformed: every chain with one end point moved by 1, 1e-3, 1e-8 (must raise) or 1e-10 (within tolerance, accepted), an open "
     "chain, a string, an int, a list of non-curves: exception and no object. non-trivial = every description; distinct = (curve, way)."
@@ -66,7 +66,7 @@ def descriptions(tier, seed):
                     vv = [vv[0]] + vv[:0:-1]
                 n = len(vv)
                 out.append(("%s#%s%s" % (name, v, "@cw" if cw else ""), [[vv[i], vv[(i + 1) % n]] for i in range(n)], True))
-    for q in ("c4", "c8", "lens", "rsq", "blob"):
+    for q in ("c4", "c8", "lens", "rsq", "blob", "dblh", "zeroh", "pinch", "ipinch", "tear", "mixg"):
         for cw in (False, True):
             S = al.build_leaf("Q." + q + ("@cw" if cw else ""))
             ctrl = [[(p._x, p._y) for p in sg.ctrlpoints] for sg in S.jordans[0].segments]
